@@ -47,7 +47,8 @@ func c20Module() *dm.Module {
 				{Kind: "case", Name: p + "i2", Children: []*dm.Node{{Kind: "container", Name: p + "deepc", Children: []*dm.Node{leaf("y", "string")}}}}}}}},
 			{Kind: "case", Name: p + "o2", Aug: true, Children: []*dm.Node{leaf(p+"augd", "string")}}}}
 	}
-	m.Top = append(m.Top, &dm.Node{Kind: "container", Name: "deep", Children: []*dm.Node{leaf("plain", "string"), nested("")}},
+	m.Top = append(m.Top, &dm.Node{Kind: "container", Name: "deep", Children: []*dm.Node{leaf("plain", "string"), nested(""),
+		{Kind: "leaf-list", Name: "tags", Type: &dm.Type{Base: "string"}, Defaults: []string{"a", "b"}}, {Kind: "leaf-list", Name: "nums", Type: &dm.Type{Base: "int32"}, Defaults: []string{"1", "2"}}}},
 		&dm.Node{Kind: "list", Name: "dl", Keys: []string{"k"}, Children: []*dm.Node{leaf("k", "string"), nested("l-")}})
 	m.Identities = append(m.Identities, dm.Identity{Name: "id-z", Base: "idbase"}, dm.Identity{Name: "id-m", Base: "idbase"}, dm.Identity{Name: "id-c", Base: "idbase"}, dm.Identity{Name: "id-zz", Base: "id-z"})
 	m.Extra = "typedef pt { type string { pattern \"[a-z]+\" { error-message \"lower\"; error-app-tag \"t1\"; } } } leaf p1 { type pt; } " +
@@ -108,6 +109,45 @@ func c20RunOps(mm *meta.Module, ops []c20Op) []string {
 				h.Write([]byte(k + "=" + flat[k] + "\n"))
 			}
 			add(fmt.Sprintf("%d entries, digest %x", len(flat), h.Sum64()), nil)
+		case "scribble":
+			// a fresh data tree gets a container whose leaf-lists take their defaults; the owner of the data then changes
+			// what it was given (it is its data), which must not reach the module or anybody else's tree
+			own := map[string]interface{}{}
+			src, err := nodeutil.ReadJSON(`{"deep":{"plain":"mine"}}`)
+			if err == nil {
+				err = node.NewBrowser(mm, &nodeutil.Node{Object: own}).Root().UpsertFrom(src)
+			}
+			if err != nil {
+				add("", err)
+				continue
+			}
+			before := fmt.Sprint(own)
+			n := 0
+			var scribble func(v interface{})
+			scribble = func(v interface{}) {
+				switch x := v.(type) {
+				case map[string]interface{}:
+					for _, k := range sortedKeys(x) {
+						scribble(x[k])
+					}
+				case map[interface{}]interface{}:
+					for _, e := range x {
+						scribble(e)
+					}
+				case []string:
+					for i := range x {
+						x[i] = "SCRIBBLED"
+						n++
+					}
+				case []int32:
+					for i := range x {
+						x[i] = -1
+						n++
+					}
+				}
+			}
+			scribble(own)
+			add(fmt.Sprintf("%s; %d elements overwritten", before, n), nil)
 		case "schema":
 			// the schema served as data (nodeutil.SchemaBrowser), the way a server publishes it
 			add(nodeutil.WriteJSON(nodeutil.SchemaBrowser(c20FcYang(), mm).Root()))
@@ -287,7 +327,7 @@ func c20Gen(t *rapid.T) c20Case {
 		var ops []c20Op
 		n := rapid.IntRange(1, 5).Draw(t, "nops")
 		for j := 0; j < n; j++ {
-			kind := rapid.SampledFrom([]string{"load", "export", "upsert", "find", "json", "json-node", "xml", "constrain", "setvalue", "delete", "load", "constrain", "schema"}).Draw(t, "kind")
+			kind := rapid.SampledFrom([]string{"load", "export", "upsert", "find", "json", "json-node", "xml", "constrain", "setvalue", "delete", "load", "constrain", "schema", "scribble"}).Draw(t, "kind")
 			op := c20Op{Kind: kind}
 			switch kind {
 			case "upsert":
@@ -311,7 +351,7 @@ func c20Gen(t *rapid.T) c20Case {
 var c20Shared = hx.Register(&hx.Check[c20Case]{
 	Name:    "c20-shared-schema",
 	Journal: true,
-	Rule:    "2-8 goroutines, each with its own reference store, run 1-5 operations {load the module text (groupings, uses, refine, augments also into a choice, typedefs), export, upsert from JSON, Find with and without query parameters (also to definitions that a lookup by name reaches only through nested choices and augmented cases, and where= expressions naming them), JSON write (also of a slice-backed nodeutil.Node), XML write, the schema itself served as data, Constrain + read, SetValue, Delete} against one shared compiled module that is freshly loaded for every repetition (so that lazily initialised state is first touched concurrently), under GOMAXPROCS 1/2/4/16, each workload twice; built with -race (halt on first report); every goroutine's results must equal what the same list yields alone and the module's accessor dump must be unchanged; non-trivial = at least one loader or constrained read among >= 2 goroutines",
+	Rule:    "2-8 goroutines, each with its own reference store, run 1-5 operations {load the module text (groupings, uses, refine, augments also into a choice, typedefs), export, upsert from JSON, Find with and without query parameters (also to definitions that a lookup by name reaches only through nested choices and augmented cases, and where= expressions naming them), JSON write (also of a slice-backed nodeutil.Node), XML write, the schema itself served as data, a data owner overwriting the leaf-list values its new tree was given as defaults, Constrain + read, SetValue, Delete} against one shared compiled module that is freshly loaded for every repetition (so that lazily initialised state is first touched concurrently), under GOMAXPROCS 1/2/4/16, each workload twice; built with -race (halt on first report); every goroutine's results must equal what the same list yields alone and the module's accessor dump must be unchanged; non-trivial = at least one loader or constrained read among >= 2 goroutines",
 	Gen:     c20Gen,
 	Run:     c20Run,
 })
